@@ -305,7 +305,10 @@ def perform_compile(
             all_pinned &= all([is_pinned_requirement(req) for req in constraint_source])
             if all_pinned:
                 for req in constraint_source:
-                    pinned_requirements[normalize_project_name(req.project_name)] = req
+                    pin_key = normalize_project_name(req.project_name)
+                    pinned_requirements[pin_key] = merge_requirements(
+                        pinned_requirements.get(pin_key), req
+                    )
 
         if not all_pinned:
             for constraint_source in constraint_reqs:
